@@ -125,7 +125,7 @@ func monitor(recs []world.Decoded, src world.Addr) (string, map[string]int) {
 			cnt["undecodable"]++
 			if r.Unified {
 				cnt["undecodable_dtls13"]++
-				continue // the sequence number of an undecodable 1.3 record is unknown (C10/C20 own decodability)
+				return fmt.Sprintf("%s emitted a DTLS 1.3 record that opens under no reference generation, so its sequence number cannot be audited (datagram #%d record %d: %s)", src, r.D.ID, r.Index, r.Err), cnt
 			}
 		}
 		cnt["records"]++
@@ -284,8 +284,10 @@ func classOf(ops []*world.Op) string {
 	return fmt.Sprintf("ops-ok=%d ops-err=%d", ok, fail)
 }
 
-// wrapRun presets the sender's record counter just below 2^48 and writes across the boundary.
-func wrapRun(t *testing.T, p *world.PKI, cc cfgCase, clientSends bool, seed uint64) run.Outcome {
+// wrapRun presets the sender's record counter just below 2^48 and runs a sequence of record-emitting
+// operations across the boundary: w = Write, k = UpdateKeys (1.3), r = the peer's final handshake datagram
+// arrives again (final-flight resend / ACK), x = Close (alert).
+func wrapRun(t *testing.T, p *world.PKI, cc cfgCase, clientSends bool, ops string, seed uint64) run.Outcome {
 	var o run.Outcome
 	world.Run(t, seed, func(w *world.World) {
 		pr, err := cc.v.Setup(w, p)
@@ -302,9 +304,15 @@ func wrapRun(t *testing.T, p *world.PKI, cc cfgCase, clientSends bool, seed uint
 		dec := pr.NewDecoder()
 		w.CIDLenHint = pr.CIDLenFor
 		dec.Poll()
-		x := pr.S
+		x, y := pr.S, pr.C
 		if clientSends {
-			x = pr.C
+			x, y = pr.C, pr.S
+		}
+		var peerLast []byte
+		for _, d := range w.Emitted() {
+			if d.Src == y.Addr && d.ID >= pr.FirstID {
+				peerLast = d.Data
+			}
 		}
 		const maxSeq = uint64(1)<<48 - 1
 		var epoch uint16
@@ -315,11 +323,38 @@ func wrapRun(t *testing.T, p *world.PKI, cc cfgCase, clientSends bool, seed uint
 		})
 		dec.SetExpected(clientSends, epoch, maxSeq-1)
 		var errs []error
-		for i := 0; i < 4; i++ {
-			op := w.Go(fmt.Sprintf("Write%d", i), func(*world.Op) error { _, e := x.Conn.Write([]byte{byte('0' + i)}); return e })
-			_ = n.Pump(2*time.Second, op.Done)
-			_, e := op.Result()
-			errs = append(errs, e)
+		var kinds []byte
+		for i, k := range []byte(ops) {
+			var op *world.Op
+			switch k {
+			case 'w':
+				op = w.Go(fmt.Sprintf("Write%d", i), func(*world.Op) error { _, e := x.Conn.Write([]byte{byte('0' + i)}); return e })
+			case 'k':
+				op = w.Go("UpdateKeys", func(*world.Op) error {
+					ctx, cancel := context.WithTimeout(context.Background(), 8*time.Second)
+					defer cancel()
+					return x.Conn.UpdateKeys(ctx, dtls.KeyUpdateOptions{})
+				})
+			case 'x':
+				op = w.Go("Close", func(*world.Op) error { return x.Conn.Close() })
+			case 'r':
+				if peerLast != nil {
+					w.Push(y.Addr, x.Addr, peerLast)
+				}
+			}
+			if op != nil {
+				_ = n.Pump(10*time.Second, op.Done)
+				_, e := op.Result()
+				if !op.Done() {
+					e = world.ErrHorizon
+				}
+				if k == 'w' {
+					errs = append(errs, e)
+					kinds = append(kinds, k)
+				}
+			} else {
+				_ = n.Pump(2*time.Second, func() bool { return w.Head() == nil })
+			}
 		}
 		n.Flush()
 		recs := dec.Poll()
@@ -331,18 +366,24 @@ func wrapRun(t *testing.T, p *world.PKI, cc cfgCase, clientSends bool, seed uint
 			}
 		}
 		v, _ := monitor(recs, x.Addr)
-		o.Class = fmt.Sprintf("writes=%v seqs=%v", errClasses(errs), rel(seqs, maxSeq))
+		o.Class = fmt.Sprintf("ops=%s writes=%v seqs=%v", ops, errClasses(errs), rel(seqs, maxSeq))
 		switch {
 		case v != "":
-			o.Violation = fmt.Sprintf("config=%s sender=%s wrap: %s", cc.name, x.Name, v)
-		case errs[0] != nil || errs[1] != nil:
-			o.Violation = fmt.Sprintf("config=%s sender=%s wrap: writes at 2^48-2 and 2^48-1 must succeed: %v %v", cc.name, x.Name, errs[0], errs[1])
-		case errs[2] == nil || errs[3] == nil:
-			o.Violation = fmt.Sprintf("config=%s sender=%s wrap: a write past sequence number 2^48-1 returned nil (it must fail rather than wrap): %v %v; emitted %v", cc.name, x.Name, errs[2], errs[3], rel(seqs, maxSeq))
-		case len(seqs) != 2:
-			o.Violation = fmt.Sprintf("config=%s sender=%s wrap: expected exactly the records 2^48-2 and 2^48-1, emitted %v", cc.name, x.Name, rel(seqs, maxSeq))
+			o.Violation = fmt.Sprintf("config=%s sender=%s boundary ops=%s: %s", cc.name, x.Name, ops, v)
+		default:
+			// application writes: the first two record numbers (2^48-2, 2^48-1) are available to whoever emits first;
+			// once the counter is exhausted every Write must fail
+			used := len(seqs)
+			for i, e := range errs {
+				if e == nil && used > 2 {
+					o.Violation = fmt.Sprintf("config=%s sender=%s boundary ops=%s: %d records were emitted in the epoch although only 2 numbers were left (write #%d returned nil): emitted %v", cc.name, x.Name, ops, used, i, rel(seqs, maxSeq))
+				}
+			}
+			if ops == "wwww" && (errs[0] != nil || errs[1] != nil || errs[2] == nil || errs[3] == nil || len(seqs) != 2) {
+				o.Violation = fmt.Sprintf("config=%s sender=%s boundary: writes at 2^48-2 and 2^48-1 must succeed and later ones must fail rather than wrap: results %v, emitted %v", cc.name, x.Name, errClasses(errs), rel(seqs, maxSeq))
+			}
 		}
-		o.Sample = map[string]any{"config": cc.name, "sender": x.Name, "wrap": o.Class}
+		o.Sample = map[string]any{"config": cc.name, "sender": x.Name, "boundary_ops": ops, "class": o.Class}
 		pr.CloseAll()
 	})
 	return o
@@ -400,8 +441,14 @@ func TestC09(t *testing.T) {
 						Run: func(t *testing.T) run.Outcome { return c09Run(t, p, cc, clientSends, seq, hold, env.Seed+1) }})
 				}
 			}
-			cc, clientSends := cc, clientSends
-			cases = append(cases, run.Case{ID: fmt.Sprintf("%s/%s/wrap", cc.name, side), Run: func(t *testing.T) run.Outcome { return wrapRun(t, p, cc, clientSends, env.Seed+1) }})
+			wrapOps := []string{"wwww", "wrw", "wwrw", "wxw", "wwx", "rww"}
+			if cc.v.V13 {
+				wrapOps = append(wrapOps, "wkw", "wwkw", "kww", "wwk", "wkrw")
+			}
+			for _, ops := range wrapOps {
+				cc, clientSends, ops := cc, clientSends, ops
+				cases = append(cases, run.Case{ID: fmt.Sprintf("%s/%s/wrap-%s", cc.name, side, ops), Run: func(t *testing.T) run.Outcome { return wrapRun(t, p, cc, clientSends, ops, env.Seed+1) }})
+			}
 		}
 	}
 	run.Main(t, "C09", cases, map[string]any{"configs": len(configs(env.Thorough())), "ops_alphabet": "Write a/b/c, peer retransmission, UpdateKeys (1.3), Close", "max_concurrent_ops": 3, "holds": "none, emission 0, 1, 2"})
